@@ -163,17 +163,22 @@ def classify(diag, meta, world_file):
 
 
 def run_world(name, repo="/repo", tier="quick", seed=0, timeout=600):
-    """Generate + verify world `name`.  Returns a result dict (see keys below)."""
-    tmpl = os.path.join(VERIF, "worlds", f"{name}.rs.tmpl")
-    out = os.path.join(BUILD, f"{name}_world.rs")
+    """Generate + verify world `name` (`<template>` or `<template>+<flag>`, e.g. `regions+failstop`)."""
+    base, _, flag = name.partition("+")
+    flags = (flag,) if flag else ()
+    tmpl = os.path.join(VERIF, "worlds", f"{base}.rs.tmpl")
+    tag = f"{base}_{flag}" if flag else base
+    os.makedirs(BUILD, exist_ok=True)
+    out = os.path.join(BUILD, f"{tag}_world.rs")
     res = dict(world=name, status="undecided", violations=[], undecided=[], obligations=[], functions=[], canaries={},
                trusted=[], verus={}, reason=None)
     try:
-        meta = worldgen.build(tmpl, repo, out)
+        meta = worldgen.build(tmpl, repo, out, flags=flags)
     except (ExtractError, worldgen.WorldError) as e:
         res["reason"] = f"extraction: {e}"
         return res
-    res["functions"] = [f for f in meta["functions"]]
+    res["functions"] = [f for f in meta["functions"] if not f.get("shadow")]
+    shadow = {f["id"] for f in meta["functions"] if f.get("shadow")}
     rlimit = 30 if tier == "quick" else 60
     runs = [(seed if seed else None)]
     if tier == "thorough":
@@ -203,6 +208,8 @@ def run_world(name, repo="/repo", tier="quick", seed=0, timeout=600):
             c = classify(d, meta, out)
             if c is None:
                 continue
+            if c.get("fn") in shadow:
+                continue   # duplicate of a function decided in the total-reading world
             if c["kind"] == "violation":
                 this_viol[c["obligation"]] = c
             elif c["kind"] == "canary":
@@ -221,8 +228,8 @@ def run_world(name, repo="/repo", tier="quick", seed=0, timeout=600):
                     all_und.append(dict(msg=f"unstable under seed change: {ob}", reason="solver instability"))
                     del all_viol[ob]
     # canary run (vacuity guard): every canary must fail
-    cout = os.path.join(BUILD, f"{name}_canary.rs")
-    cmeta = worldgen.build(tmpl, repo, cout, canary_mode=True)
+    cout = os.path.join(BUILD, f"{tag}_canary.rs")
+    cmeta = worldgen.build(tmpl, repo, cout, canary_mode=True, flags=flags)
     ctext = open(cout).read()
     cmd = _verus_cmd(os.path.basename(cout), 10, None, ["--verify-module", "canary"])
     rc, so, se, wall = _run(cmd, BUILD, timeout)
@@ -244,7 +251,7 @@ def run_world(name, repo="/repo", tier="quick", seed=0, timeout=600):
     # obligations
     obligations = []
     for f in meta["functions"]:
-        if f.get("kind") != "fn":
+        if f.get("kind") != "fn" or f.get("shadow"):
             continue
         for lab in f["clauses"]:
             if lab.startswith("pre."):
@@ -276,7 +283,7 @@ def run_world(name, repo="/repo", tier="quick", seed=0, timeout=600):
     res["violations"] = violations
     res["undecided"] = [dict(msg=u.get("msg"), fn=u.get("fn"), reason=u.get("reason"), rendered=(u.get("rendered") or "")[:600]) for u in all_und]
     n_fn = sum(1 for f in meta["functions"] if f.get("kind") == "fn")
-    if not violations and not all_und:
+    if not violations and not all_und and not shadow:
         if (res["verus"].get("verified") or 0) < n_fn or (res["verus"].get("errors") or 0) != 0:
             res["undecided"].append(dict(msg="verified-function count below extracted-function count", reason="vacuity guard (i)"))
     res["verus"]["total_ms_all_runs"] = total_ms
